@@ -93,6 +93,14 @@ fn one_pair<CS: BbsCiphersuite>(
 
 fn check_one<CS: BbsCiphersuite>(rep: &Report, ck: &str, c: &Case) -> CheckResult {
     let cj = || json!({"case": c});
+    // half of the cases run after a warm-up history of unrelated legal calls on this thread
+    {
+        let hs: u64 = c.seed as u64 ^ c.key.ikm.seed as u64;
+        if hs % 2 == 1 {
+            crate::history::warmup(hs, 1 + (hs % 5) as usize);
+            rep.class("after-warm-up-history");
+        }
+    }
     let kp = keypair::<CS>(&c.key).map_err(|e| Fail { check: ck.into(), site: "keygen".into(), msg: format!("{:?}", e), case: cj() })?;
     let (sk, pk) = (kp.private_key(), kp.public_key());
     let msgs = c.msgs.materialize();
